@@ -232,7 +232,7 @@ pub fn run_case(case: &Case) -> Outcome {
         Ok(Ok(())) => {}
         Ok(Err(b)) => out.violation = Some(Violation { property: b.0, kind: b.1.to_string(), step: 0, detail: b.2 }),
         Err(p) => {
-            std::mem::forget(p);
+            drop(p);
             let msg = world::last_panic_message().unwrap_or_default();
             out.violation = Some(Violation { property: "C20", kind: "unexpected-panic".into(), step: 0, detail: msg });
         }
